@@ -96,4 +96,22 @@ TEXT = {
         "technique": "per-build translation validation against one Lean model + cross-build digest comparison",
         "design_ref": "DESIGN.md section 3 C20",
     },
+    "C16": {
+        "level_text": "Proof of the check-sum half + exhaustive enumeration of the rest. C16_crc8_burst / C16_crc16_burst: for any message, XOR-ing a non-zero error pattern confined to <= 8 (<= 16) consecutive bits changes the CRC (generic proof for any CRC with odd polynomial and zero init; linearity C16_crc*_linear, zero-step injectivity); C16_header_burst_rejected / C16_frame_burst_rejected: such a burst anywhere in a header/frame including the stored check value makes the parser's comparison fail; C16_*_clean_accepted, C16_*_accepts_own for the unaltered data. The parser/decoder mirror Model/RepoParser.lean has explicit panic outcomes for every unwrap/expect/assert/checked arithmetic of parser.rs and decode.rs; it is tied to the real code by agreeing on the outcome of every enumerated mutant (all single-bit flips, 2..8-bit bursts, truncations, random strings) in both cargo profiles. 'Never panics' and 'no altered frame accepted with different audio' are decided on the real code by that enumeration (exhaustive over the stated mutation space in the thorough tier).",
+        "level_note": "A universal 'never accepts an altered frame' is false for any format with 16 check bits (counting); it is split as DESIGN.md section 3 C16 describes. The panic-freedom theorem for the mirror (C16_total) is added when its proof is complete; until then panic-freedom rests on the enumeration.",
+        "technique": "Lean 4 CRC algebra (burst detection) + parser/decoder mirror validated mutant-by-mutant against the real parser + exhaustive mutation enumeration",
+        "design_ref": "DESIGN.md section 3 C16",
+    },
+    "C07": {
+        "level_text": "Proof against the GENERATED model: tools/translate.py regenerates Gen/Config.lean from src/config.rs on every run (field list, Default impls, every verify_range!/verify_true!, the cfg!(experimental) guard, and which nested verify() calls are chained), and C07_exact proves `Encoder.verify exp c = true <-> InRange exp c` for every configuration, where InRange is written by hand from the documented ranges (block size 32..32767, fixed max order <= 4, partitions 1..64, LPC order 1..24, precision 1..15, Rice parameter <= 14, Tukey alpha a non-NaN f32 in [0,1] via the bit-level lemma C07_alpha, experimental options only when compiled in); C07_rejects, C07_nan_rejected, C07_default_verifies; C07_consumers: the preconditions the integer consumers rely on (partitions != 0 for the division, max_order+1 <= 5, precision >= 1, order <= 24, parameter < 16, block size >= 32) follow from verification. Un-chaining a nested verify or changing a limit changes the generated model and breaks the proof on the next run. 'Every accepted configuration encodes every valid input without panicking and losslessly': decided by encoding every accepted grid point against a probe corpus under catch_unwind + claxon (the property's own quantifier), with C01/C09/C13_total covering the integer pipeline for all inputs.",
+        "level_note": "Partial for panic-freedom: the float estimator's internal asserts are outside the model (probe-corpus enumeration only).",
+        "technique": "Lean 4 theorem over a model regenerated from the source by a fail-closed translator + grid correspondence validating the translator + probe-corpus enumeration",
+        "design_ref": "DESIGN.md section 3 C07, section 1.2 (a)",
+    },
+    "C19": {
+        "level_text": "Proof over a model of serde's data model whose struct shapes, attributes and defaults are GENERATED from config.rs on every run: C19_roundtrip (+ one per nested type): fromT (toT c) = ok c; C19_verify_commutes(_omitted); C19_empty_document / C19_empty_section; C19_omitted_fields (+ per struct): erasing ANY set of keys yields exactly those fields reset to their defaults; C19_omitted_in_{stereo,subframe,fixed,qlpc,prc,orderSel,window}: the same for keys omitted inside sections of the whole document; C19_omitted_partitions / _alpha (per-variant defaults 16 / 0.4), C19_omitted_type (a missing tag is an error); C19_default_documented: the generated defaults equal the documented literals (4096, par, none, true x3, 4, ApproxEnt 16, 10, 15, false, 0, Tukey 0.4, 14). Tied to the real toml/serde behaviour by comparing serialised value trees and parsed configurations (or errors) on random configurations with random omitted key paths.",
+        "level_note": "The TOML text layer (toml 0.5) is modelled from serde's value tree upward, not verified. Known finding K1: an integer field above 2^63-1 cannot be serialised/parsed by toml 0.5 (fails loudly).",
+        "technique": "Lean 4 theorems over a serde-shape model regenerated from the source + differential correspondence with toml/serde",
+        "design_ref": "DESIGN.md section 3 C19",
+    },
 }
